@@ -55,11 +55,12 @@ def write_mc(name, W, N, bodies, off=None, inv=FULL_INV, live=False):
 
 
 def rm_mc(mod):
-    for ext in (".tla", ".cfg"):
-        try:
-            os.remove(os.path.join(vlib.SPEC, mod + ext))
-        except OSError:
-            pass
+    for fn in os.listdir(vlib.SPEC):
+        if fn in (mod + ".tla", mod + ".cfg") or fn.startswith(mod + "_TTrace_"):
+            try:
+                os.remove(os.path.join(vlib.SPEC, fn))
+            except OSError:
+                pass
 
 
 def model_check(v, tier):
@@ -68,7 +69,7 @@ def model_check(v, tier):
         cfgs.append(("w3n3", 3, 3, ["empty", "flipdraw", "log"], False))
     else:
         cfgs.append(("w3n3", 3, 3, ["empty", "flipdraw", "log", "clock", "flip3"], False))
-        cfgs.append(("w3n4", 3, 4, ["empty", "flipdraw", "log"], False))
+        cfgs.append(("w3n4", 3, 4, ["empty", "flipdraw", "log", "clock"], False))
         cfgs.append(("w2n4", 2, 4, ["empty", "flipdraw", "log", "clock", "flip3", "draw"], False))
     for name, W, N, bodies, live in cfgs:
         mod = write_mc(name, W, N, bodies, live=live)
@@ -91,7 +92,7 @@ def model_check(v, tier):
         inv = "NoEarlyReturn" if d == "JoinsAll" else "NoViolation"
         mod = write_mc("dev_" + d, 2, 3, ["empty", "flipdraw", "log", "clock"], off=d, inv=inv)
         try:
-            r = vlib.tlc(PID, mod, mod + ".cfg", timeout=900, tag="dev_" + d, heap="4g")
+            r = vlib.tlc(PID, mod, mod + ".cfg", timeout=900, tag="dev_" + d, heap="4g", extra=["-noGenerateSpecTE"])
         finally:
             rm_mc(mod)
         if r.error:
@@ -131,7 +132,9 @@ def make_plans(v, groups, per_n, out):
     lines, total = [], 0
     with concurrent.futures.ThreadPoolExecutor(max_workers=6) as ex:
         for n, plans, r in ex.map(one, ns):
-            v.cov["states"] += 0
+            mg = re.search(r"The number of states generated: (\d+)", r.out)
+            r.generated, r.distinct = (int(mg.group(1)) if mg else 0), 0
+            v.add_tlc(r, "simulation of Experiment.tla W=%d N=%d (monitors as invariants): %d completion orders exported" % (cores, n, len(plans)))
             total += len(plans)
             for p in plans:
                 lines.append("%d %s" % (n, " ".join(map(str, p))))
@@ -250,6 +253,7 @@ def run(tier, replay=None):
     seed = vlib.seed()
 
     if replay:
+        replay = os.path.abspath(replay)
         with open(replay) as f:
             first = json.loads(f.readline())
         nr, nj, _ = judge_trace(v, replay, "replay_recorded", dict(seed=first.get("seed", seed), runs=first.get("runs", 8)))
@@ -262,14 +266,19 @@ def run(tier, replay=None):
             nr += nr2
         v.cov["traces_validated_against_impl"] = v.cov["evaluations"] = v.cov["distinct_nontrivial"] = nr
         v.cov["rule"] = "replay of one recorded group"
-        return v.finish()
+        evp = os.path.join(vlib.ROOT, "evidence", PID + ".json")          # a replay does not replace the evidence of the last full run
+        keep = open(evp).read() if os.path.exists(evp) else None
+        rc = v.finish()
+        if keep is not None:
+            open(evp, "w").write(keep)
+        return rc
 
     if os.environ.get("C19_SKIP_MC") == "1":       # development aid for mutation runs; never set by the registered command
         v.notes.append("model checking skipped (C19_SKIP_MC=1)")
     else:
         model_check(v, tier)
 
-    ngroups, runs, per_n = (28, 8, 3) if tier == "quick" else (91, 24, 8)
+    ngroups, runs, per_n = (28, 8, 4) if tier == "quick" else (91, 24, 8)
     rc, o = vlib.run([exe, "config", str(seed), str(ngroups)], timeout=60)
     if rc != 0:
         raise vlib.MachineryError("exp_replay config failed: " + o[-1000:])
